@@ -369,14 +369,14 @@ theorem pairP_of (y : Int) (ya ya' : YearAstro) (h : pairOk y ya ya' = true) : P
       exact recordsAgree_spec _ _ _ _ h1.1 r hr e o
     · unfold pairStructOk at h1
       simp only [Bool.and_eq_true] at h1
-      exact recordsAgree_spec _ _ _ _ h1.1.1.1 r hr e rfl
+      exact recordsAgree_spec _ _ _ _ h1.1.1.1.1 r hr e rfl
   · intro r hr e o
     split at h1
     · simp only [Bool.and_eq_true] at h1
       exact recordsAgree_spec _ _ _ _ h1.2 r hr e o
     · unfold pairStructOk at h1
       simp only [Bool.and_eq_true] at h1
-      exact recordsAgree_spec _ _ _ _ h1.1.1.2 r hr e rfl
+      exact recordsAgree_spec _ _ _ _ h1.1.1.1.2 r hr e rfl
 
 theorem pairP_year (A : Astro) (lo hi : Int) (h : AstroOK A lo hi) (y : Int) (hlo : lo ≤ y) (hhi : y < hi) :
     PairP y (A y).months (A (y + 1)).months := pairP_of _ _ _ (h.pair y hlo hhi)
